@@ -405,7 +405,30 @@ Inductive tkey := TRef (r : ref) | TByt (u : bool) (v : Z) (w : N).
 Coercion TRef : ref >-> tkey.
 Definition tkey_gokey (k : tkey) : gokey := match k with TRef r => gokey_of r | TByt u v _ => KByt u v end.
 
-(* operations name keys by their index in a pool of references; values are integers (None = nil) *)
+(* operations name keys by their index in a pool of references; values are integers (None = nil).
+
+   VALUES.  What a table stores is an OBJECT, and the table never looks at it: (setf gethash) is the Go
+   assignment ht[key] = value (Gethash.Place), whatever is there already.  A value is therefore named by an
+   integer code that identifies the object, not merely its number:  0 is nil, and  100 * r + n  (1 <= n < 100)
+   is the object of representation r holding the number n:
+     r = 0  the fixnum n            r = 1  the double-float n.0        r = 2  the single-float n.0
+     r = 3  a list (n), box A       r = 4  a second list (n), box B (made separately: equal, not eq)
+   Different codes are different objects, but slip.ObjectEqual - the per-type Equal methods of section 4 -
+   accepts many such pairs: a fixnum Equals the float of its value, a list Equals an element-wise equal list.
+   val_equal_m is ObjectEqual on value codes; it is NOT part of what the table does (t_put below ignores it) and
+   is here for the statement that it must not be: see t_put_unless and Proofs7. *)
+Definition val_rep (c : Z) : Z := c / 100.
+Definition val_num (c : Z) : Z := c mod 100.
+Definition val_code (r n : Z) : Z := 100 * r + n.
+Definition val_is_number (c : Z) : bool := (val_rep c <=? 2) && negb (val_num c =? 0).
+Definition val_is_list (c : Z) : bool := (3 <=? val_rep c) && (val_rep c <=? 4) && negb (val_num c =? 0).
+Definition val_wf (c : Z) : bool := (c =? 0) || ((0 <=? c) && (val_is_number c || val_is_list c)).
+(* slip.ObjectEqual(a, b) on value objects: nil only nil; numbers by value across representations
+   (Fixnum.Equal / SingleFloat.Equal / DoubleFloat.Equal on an integral value below 100: exact);
+   lists element-wise (List.Equal), whichever box *)
+Definition val_equal_m (a b : Z) : bool :=
+  (a =? b) ||
+  ((val_num a =? val_num b) && ((val_is_number a && val_is_number b) || (val_is_list a && val_is_list b))).
 Inductive hop :=
 | HPut (k : nat) (v : Z)     (* (setf (gethash k h) v) *)
 | HGet (k : nat)             (* (gethash k h) *)
@@ -439,6 +462,16 @@ Section Table.
     match st with
     | [] => [(i, v)]
     | (j, w) :: st' => if same_key i j then (j, v) :: st' else (j, w) :: t_put st' i v
+    end.
+  (* NOT what slip does: the store with a "nothing to change" guard - when the key is present and veq accepts
+     (current value, new value) the assignment is skipped.  With veq = val_equal_m (slip.ObjectEqual) this is a
+     tempting edit of Gethash.Place; Proofs7 shows it is the same table exactly when veq implies identity and
+     refutes it for val_equal_m. *)
+  Fixpoint t_put_unless (veq : Z -> Z -> bool) (st : tstate) (i : nat) (v : Z) : tstate :=
+    match st with
+    | [] => [(i, v)]
+    | (j, w) :: st' => if same_key i j then (if veq w v then (j, w) :: st' else (j, v) :: st')
+                       else (j, w) :: t_put_unless veq st' i v
     end.
   (* the smallest pool index holding a key Go considers the same (how the observation names a stored key) *)
   Definition canon (i : nat) : nat :=
